@@ -1335,6 +1335,26 @@ pub fn observe_real(seed: u64, lines: &[Line]) -> String {
     cmd.stdin(std::process::Stdio::null())
         .stdout(std::process::Stdio::piped())
         .stderr(std::process::Stdio::null());
+    // The real shell must not depend on what the check's parent did to its process state: a background
+    // job of a non-interactive shell inherits SIGINT/SIGQUIT ignored (a shell cannot trap those again).
+    {
+        use std::os::unix::process::CommandExt as _;
+        // SAFETY: only async-signal-safe calls between fork and exec
+        unsafe {
+            cmd.pre_exec(|| {
+                for sig in [libc::SIGINT, libc::SIGQUIT, libc::SIGTERM, libc::SIGHUP, libc::SIGPIPE,
+                    libc::SIGUSR1, libc::SIGUSR2, libc::SIGTSTP, libc::SIGTTIN, libc::SIGTTOU, libc::SIGCHLD]
+                {
+                    libc::signal(sig, libc::SIG_DFL);
+                }
+                let mut empty: libc::sigset_t = std::mem::zeroed();
+                libc::sigemptyset(&mut empty);
+                libc::sigprocmask(libc::SIG_SETMASK, &empty, std::ptr::null_mut());
+                libc::umask(0o022);
+                Ok(())
+            });
+        }
+    }
     let Ok(mut child) = cmd.spawn() else { return "SPAWN-FAILED".into() };
     let mut stdout = child.stdout.take().unwrap();
     let reader = std::thread::spawn(move || {
